@@ -104,7 +104,7 @@ func cmdReplay(path string) int {
 	return 0
 }
 
-type replayUnused struct{
+
 
 // ---------------------------------------------------------------------------
 // interactive model session (z3-new -in): one model, many get-value queries
